@@ -153,7 +153,7 @@ func (idx *BlockIndex) WriteTo(w io.Writer) (int64, error) {
 
 func (idx *BlockIndex) ReadFrom(r io.Reader) (int64, error) {
 	b := []byte{0}
-	n, err := r.Read(b)
+	n, err := io.ReadFull(r, b)
 	if err != nil {
 		return 0, err
 	}
@@ -161,14 +161,14 @@ func (idx *BlockIndex) ReadFrom(r io.Reader) (int64, error) {
 	l := int(b[0])
 	idx.Rows = make([][]byte, l)
 	idx.sortedOff = make([]uint8, l)
-	n, err = r.Read(idx.sortedOff)
+	n, err = io.ReadFull(r, idx.sortedOff)
 	if err != nil {
 		return 0, err
 	}
 	total += int64(n)
 	for i := 0; i < l; i++ {
 		idx.Rows[i] = make([]byte, 32)
-		n, err = r.Read(idx.Rows[i])
+		n, err = io.ReadFull(r, idx.Rows[i])
 		if err != nil {
 			return 0, err
 		}
